@@ -343,7 +343,7 @@ def resolveSource (e : Fmt.Ext) : Y → Except CfgErr SourceCfg
       | some fmt => (resolveGeneric e src fmt).map fun g => mkSource src (.generic g)
       | none =>
         match get kType src with
-        | some t => (resolveSpecial e t).map (mkSource src)
+        | some t => (resolveSpecial e t).map fun p => mkSource src p
         | none => .error .noFormat
   | _ => .error .notAMapping
 
